@@ -277,8 +277,11 @@ Recorded(e) == "meta" \in DOMAIN e /\ "recorder" \in DOMAIN e.meta
 JudgeVerify(e) ==
     LET exp == SpecVerify(e.alg, B(e.msg), B(e.sig), B(e.pk))
         want == IF exp THEN "ok" ELSE "err"
-        outcomes == <<e.res, e.vk_from, e.sig_from, e.vk_sig, e.vk_ref>>
-        anyPanic == \E i \in 1..5 : outcomes[i] = "panic"
+        (* a VerifyingKey object that lives across calls (harness): absent in events of other recorders *)
+        reSig == IF "vk_reused_sig" \in DOMAIN e THEN e.vk_reused_sig ELSE "na"
+        reRef == IF "vk_reused_ref" \in DOMAIN e THEN e.vk_reused_ref ELSE "na"
+        outcomes == <<e.res, e.vk_from, e.sig_from, e.vk_sig, e.vk_ref, reSig, reRef>>
+        anyPanic == \E i \in 1..7 : outcomes[i] = "panic"
         (* "na": the recorder did not exercise this entry point (call tracing sees the free function only) *)
         entry(kind, got) == IF got = "panic" \/ (got = "na" /\ Recorded(e)) THEN <<>>
                             ELSE IF exp THEN CmpVal(kind, "ok", got)
@@ -292,6 +295,8 @@ JudgeVerify(e) ==
         \o (IF e.res = "panic" THEN <<>> ELSE CmpVal("verify_outcome", want, e.res))
         \o entry("verify_vk_sig", e.vk_sig)
         \o entry("verify_vk_ref", e.vk_ref)
+        \o (IF reSig = "na" THEN <<>> ELSE entry("verify_vk_reused_sig", reSig))
+        \o (IF reRef = "na" THEN <<>> ELSE entry("verify_vk_reused_ref", reRef))
         \o (IF exp /\ e.vk_from \notin {"ok", "panic"} /\ ~Recorded(e) THEN <<Verdict("vk_from_bytes", "ok", e.vk_from)>> ELSE <<>>)
         \o (IF exp /\ e.sig_from \notin {"ok", "panic"} /\ ~Recorded(e) THEN <<Verdict("sig_from_bytes", "ok", e.sig_from)>> ELSE <<>>)
 
